@@ -126,7 +126,7 @@ def expr(w, e):
         w.w(e[1])
         args(w, e[2])
     elif k == "mcall":
-        recv(w, e[1])
+        recv(w, e[1], dot=True)
         w.w("." + e[2])
         args(w, e[3])
     elif k == "index":
@@ -135,7 +135,7 @@ def expr(w, e):
         expr(w, e[2])
         w.w("]")
     elif k == "field":
-        recv(w, e[1])
+        recv(w, e[1], dot=True)
         w.w("." + e[2])
     elif k == "list":
         w.w("[")
@@ -229,10 +229,17 @@ def atom(w, e):
         w.w(")")
 
 
-def recv(w, e):
-    """receiver of one postfix: a plain variable or a parenthesised expression."""
+def chainable(e):
+    """var, or a field / method call whose receiver is chainable: printable as one dot chain `a.b.c(1).d`"""
+    return e[0] == "var" or (e[0] in ("field", "mcall") and chainable(e[1]))
+
+
+def recv(w, e, dot=False):
+    """receiver of one postfix: a plain variable or a parenthesised expression (dot chains may continue un-parenthesised)."""
     if e[0] == "var":
         w.w(e[1])
+    elif dot and chainable(e):
+        expr(w, e)
     elif e[0] == "bin" and getattr(w, "minparen", False):
         w.w("(")
         bin_min(w, e, 0, "L")
@@ -277,6 +284,15 @@ def block(w, stmts):
 def stmt(w, s):
     w.w("\t" * w.ind)
     w.mark(s)
+    start = len(w.parts)
+    _stmt(w, s)
+    first = "".join(w.parts[start:start + 3])[:1]
+    if first in ("(", "[", "-"):
+        # newlines do not separate statements: such a line would glue to the previous expression
+        raise ValueError("statement must not start with %r: %r" % (first, s))
+
+
+def _stmt(w, s):
     k = s[0]
     if k == "decl":
         fl = s[4] if len(s) > 4 and s[4] else ()
@@ -294,7 +310,7 @@ def stmt(w, s):
         w.w("] = ")
         expr(w, s[3])
     elif k == "setf":
-        recv(w, s[1])
+        recv(w, s[1], dot=True)
         w.w("." + s[2] + " = ")
         expr(w, s[3])
     elif k == "opassign":
